@@ -71,6 +71,10 @@ func (s *snapshots) latest() (index, term uint64) {
 
 func (s *snapshots) meta() (snapshotMeta, error) {
 	index, _ := s.latest()
+	return s.metaAt(index)
+}
+
+func (s *snapshots) metaAt(index uint64) (snapshotMeta, error) {
 	if index == 0 {
 		return snapshotMeta{index: 0, term: 0}, nil
 	}
@@ -107,7 +111,23 @@ func (s *snapshots) applyRetain() error {
 // snapshot ----------------------------------------------------
 
 func (s *snapshots) open() (*snapshot, error) {
-	meta, err := s.meta()
+	// count ourselves as a user of the current snapshot before its files are
+	// touched: a newer snapshot published meanwhile must not remove them
+	// (applyRetain runs after the index was moved, under usedMu)
+	s.usedMu.Lock()
+	index, _ := s.latest()
+	s.used[index]++
+	s.usedMu.Unlock()
+	snap, err := s.openAt(index)
+	if err != nil {
+		s.unuse(index)
+		return nil, err
+	}
+	return snap, nil
+}
+
+func (s *snapshots) openAt(index uint64) (*snapshot, error) {
+	meta, err := s.metaAt(index)
 	if err != nil {
 		return nil, err
 	}
@@ -127,9 +147,6 @@ func (s *snapshots) open() (*snapshot, error) {
 	if err != nil {
 		return nil, err
 	}
-	s.usedMu.Lock()
-	s.used[meta.index]++
-	s.usedMu.Unlock()
 	return &snapshot{
 		snaps: s,
 		meta:  meta,
@@ -145,12 +162,16 @@ type snapshot struct {
 
 func (s *snapshot) release() {
 	_ = s.file.Close()
-	s.snaps.usedMu.Lock()
-	defer s.snaps.usedMu.Unlock()
-	if s.snaps.used[s.meta.index] == 1 {
-		delete(s.snaps.used, s.meta.index)
+	s.snaps.unuse(s.meta.index)
+}
+
+func (s *snapshots) unuse(index uint64) {
+	s.usedMu.Lock()
+	defer s.usedMu.Unlock()
+	if s.used[index] == 1 {
+		delete(s.used, index)
 	} else {
-		s.snaps.used[s.meta.index]--
+		s.used[index]--
 	}
 }
 
